@@ -3,7 +3,8 @@
 Every oracle is a validity predicate on the returned tables (parent / children / edges / traverse / trees / roots) against a
 reference graph built from the raw case (vlib.topo + vlib.ref_graph); no particular tree is ever expected.
 """
-import math
+import math, copy
+import numpy as np
 from collections import Counter
 from hypothesis import strategies as st
 from vlib.runner import SubCheck
@@ -21,7 +22,12 @@ RULE = ("Meshes: generated polylines (paths, cycles, trees, random simple graphs
         "the rest (avoid_edges and avoid_boundary for vertex trees, forbidden_edges for face trees, forbidden_faces for cell "
         "trees); MST weights one / length / dict / sparse Attribute (unset entries = default 0) / dense attribute, values with ties, "
         "zeros and negatives; traversal BFS and DFS; the three forests. non-trivial = the element adjacency graph has a cycle and "
-        "(the exclusion set is non-empty or the graph has >=2 components); distinct = distinct realised case.")
+        "(the exclusion set is non-empty or the graph has >=2 components); distinct = distinct realised case. "
+        "Histories on the SAME mesh object: optional warm-up queries (boundary data, connectivity, a persistent edge_length "
+        "attribute) before the tree; a second tree / forest built on the same mesh with another root and the SAME exclusion-set / "
+        "weights object (arguments are snapshotted and must be unchanged, the first tree's tables must stay as they were); for the MST "
+        "a pre-existing edge attribute named 'length' (fresh / set by the user / stale because vertices were moved afterwards), "
+        "coordinates uniformly scaled by 1e-6..1e6, integer-typed coordinates, roots given as numpy integers.")
 ASSUMPTIONS = ["meshes are what the data model represents (simple 1-skeleton, manifold surfaces, conforming tet meshes); "
                "exclusion sets contain valid edge / face indices; dict weights give a finite float for every edge",
                "a volume mesh's boundary edges are the edges of its boundary faces (VolumeMesh.is_edge_on_border)"]
@@ -186,17 +192,30 @@ def draw_root(draw, n):
     return draw(st.integers(0, n - 1))
 
 
+def draw_history(draw, n):
+    """fields shared by the tree sub-checks: a second tree on the same mesh object, numpy-typed roots, warm-up queries"""
+    return {"root2": draw(st.integers(0, n - 1)) if draw(st.integers(0, 2)) > 0 else None,
+            "root_np": draw(st.integers(0, 3)) == 0, "warm": draw(st.integers(0, 2)) == 0}
+
+
+def scaled(V, s):
+    return [[float(x) * s for x in v] for v in V]
+
+
 @st.composite
 def edge_tree_case(draw):
     mc = draw(any_mesh())
     mod = Model(mc)
     n, links = mod.links("vertex")
     mode, avoid = draw_exclusion(draw, n, links)
-    return {"mesh": mc, "root": draw_root(draw, n), "avoid_boundary": draw(st.integers(0, 2)) == 0,
-            "avoid": avoid, "avoid_mode": mode, "sort": draw(st.booleans())}
+    c = {"mesh": mc, "root": draw_root(draw, n), "avoid_boundary": draw(st.integers(0, 2)) == 0,
+         "avoid": avoid, "avoid_mode": mode, "sort": draw(st.booleans())}
+    c.update(draw_history(draw, n))
+    c["avoid_boundary2"] = draw(st.booleans())
+    return c
 
 
-WEIGHT_MODES = ["one", "length", "dict", "dict", "attr", "attr", "attr_dense"]
+WEIGHT_MODES = ["one", "length", "length", "dict", "dict", "attr", "attr", "attr_dense"]
 
 
 @st.composite
@@ -217,8 +236,26 @@ def mst_case(draw):
             if wm == "attr" and draw(st.integers(0, 3)) == 0:
                 continue                                    # left unset: a sparse attribute reads its default 0.0
             weights.append([e[0], e[1], draw(vals)])
-    return {"mesh": mc, "root": draw_root(draw, n), "avoid_boundary": draw(st.integers(0, 2)) == 0,
-            "weights_mode": wm, "weights": weights, "style": style, "sort": draw(st.booleans())}
+    c = {"mesh": mc, "root": draw_root(draw, n), "avoid_boundary": draw(st.integers(0, 2)) == 0,
+         "weights_mode": wm, "weights": weights, "style": style, "sort": draw(st.booleans())}
+    c.update(draw_history(draw, n))
+    c["mode2"] = draw(st.sampled_from(["same", "same", "one", "length"]))
+    # uniform scaling of the geometry (lengths are scale covariant, the tree must not depend on the unit)
+    sc = draw(st.sampled_from([1.0, 1.0, 1.0, 1e-3, 1e-6, 1e3, 1e6]))
+    if sc != 1.0:
+        mc["V"] = scaled(mc["V"], sc)
+    c["scale"] = sc
+    c["int_coords"] = draw(st.integers(0, 2)) == 0 and all(float(x) == int(x) and abs(x) < 2 ** 40 for v in mc["V"] for x in v)
+    # an edge attribute called "length" already stored on the mesh before the tree is built
+    la = draw(st.sampled_from(["none", "none", "fresh", "user", "stale", "stale"]))
+    c["length_attr"] = la
+    if la == "user":
+        c["length_vals"] = [[e[0], e[1], float(draw(st.integers(0, 40))) / 4.0 * sc] for e in mod.edge_keys]
+    if la == "stale":
+        rnd = np.random.RandomState(draw(st.integers(0, 10 ** 6)))
+        amp = draw(st.sampled_from([0.3, 1.0, 3.0])) * sc
+        c["V2"] = (np.array(mc["V"], dtype=float).reshape(-1, 3) + rnd.uniform(-amp, amp, (len(mc["V"]), 3))).tolist()
+    return c
 
 
 @st.composite
@@ -231,7 +268,9 @@ def face_tree_case(draw):
         # forbidding border edges changes nothing: there is no face on the other side
         be = sorted(mod.border_edges)
         forb = forb + [list(e) for e in be[:draw(st.integers(0, 3))]]
-    return {"mesh": mc, "root": draw_root(draw, n), "forbidden": forb, "mode": mode, "sort": draw(st.booleans())}
+    c = {"mesh": mc, "root": draw_root(draw, n), "forbidden": forb, "mode": mode, "sort": draw(st.booleans())}
+    c.update(draw_history(draw, n))
+    return c
 
 
 @st.composite
@@ -243,7 +282,9 @@ def cell_tree_case(draw):
     if forb is not None and draw(st.booleans()):
         bf = sorted(mod.face_keys - set(c for _, _, c in links))
         forb = forb + [list(f) for f in bf[:draw(st.integers(0, 3))]]
-    return {"mesh": mc, "root": draw_root(draw, n), "forbidden": forb, "mode": mode, "sort": draw(st.booleans())}
+    c = {"mesh": mc, "root": draw_root(draw, n), "forbidden": forb, "mode": mode, "sort": draw(st.booleans())}
+    c.update(draw_history(draw, n))
+    return c
 
 
 @st.composite
@@ -251,15 +292,18 @@ def forest_case(draw):
     what = draw(st.sampled_from(["edge", "edge", "face", "face", "cell"]))
     if what == "edge":
         mc = draw(any_mesh())
-        return {"what": what, "mesh": mc, "forbidden": None, "mode": "none", "sort": draw(st.booleans())}
+        return {"what": what, "mesh": mc, "forbidden": None, "mode": "none", "sort": draw(st.booleans()),
+                "twice": draw(st.booleans()), "warm": draw(st.integers(0, 2)) == 0}
     if what == "face":
         mc = draw(surface_meshes())
         mod = Model(mc)
         n, links = mod.links("face")
         mode, forb = draw_exclusion(draw, n, links)
-        return {"what": what, "mesh": mc, "forbidden": forb, "mode": mode, "sort": draw(st.booleans())}
+        return {"what": what, "mesh": mc, "forbidden": forb, "mode": mode, "sort": draw(st.booleans()),
+                "twice": draw(st.booleans()), "warm": draw(st.integers(0, 2)) == 0}
     mc = draw(volume_meshes())
-    return {"what": what, "mesh": mc, "forbidden": None, "mode": "none", "sort": draw(st.booleans())}
+    return {"what": what, "mesh": mc, "forbidden": None, "mode": "none", "sort": draw(st.booleans()),
+            "twice": draw(st.booleans()), "warm": draw(st.integers(0, 2)) == 0}
 
 
 # ============================================================================================ building
@@ -270,12 +314,41 @@ def build(case, ctx):
     M.config.sort_neighborhoods = bool(case.get("sort", True))
     mc = case["mesh"]
     mod = Model(mc)
-    if mc["kind"] == "polyline":
+    if case.get("int_coords"):
+        # integer-typed coordinates (the containers then hold int64 vectors)
+        from mouette.mesh.mesh_data import RawMeshData
+        raw = RawMeshData()
+        raw.vertices += [[int(x) for x in v] for v in mc["V"]]
+        if mc["kind"] == "polyline":
+            raw.edges += [tuple(e) for e in mc["E"]]
+            m = M.mesh.PolyLine(raw)
+        elif mc["kind"] == "surface":
+            raw.faces += [list(f) for f in mc["F"]]
+            m = M.mesh.SurfaceMesh(raw)
+        else:
+            raw.cells += [list(c) for c in mc["C"]]
+            m = M.mesh.VolumeMesh(raw)
+        ctx.label("coords=int-typed")
+    elif mc["kind"] == "polyline":
         m = polyline_from(mc["V"], mc["E"])
     elif mc["kind"] == "surface":
         m = surface_from(mc["V"], mc["F"])
     else:
         m = volume_from(mc["V"], mc["C"])
+    if case.get("warm"):
+        # the mesh object has been used before: connectivity and boundary caches exist, a persistent edge length is stored
+        ctx.label("warm-mesh")
+        if len(m.vertices):
+            m.connectivity.vertex_to_vertices(0)
+        if mc["kind"] != "polyline":
+            _ = m.boundary_edges, m.boundary_vertices, m.interior_edges
+            if len(m.faces):
+                m.connectivity.face_to_edges(0)
+        if mc["kind"] == "volume":
+            _ = m.boundary_faces
+            m.connectivity.cell_to_face(0)
+        if case.get("length_attr", "none") == "none":
+            M.attributes.edge_length(m)
     for t in mc.get("tags", []):
         if t.startswith(("base=", "comps=", "closed", "bordered", "union", "part=", "coords=")):
             ctx.label(t)
@@ -503,6 +576,59 @@ def label_common(ctx, n, links, adm, root, excl_nonempty):
     return ncomp, ncomp_adm
 
 
+# -------------------------------------------------------------------------------------------- shared: histories on one mesh
+
+def np_root(case, r):
+    """the root as the caller would pass it: plain int, or a numpy integer (e.g. taken out of an index array)"""
+    if r is None:
+        return None
+    return np.int64(r) if case.get("root_np") else int(r)
+
+
+def snapshot_tables(tree):
+    return copy.deepcopy(([x for x in tree.parent], [list(c) for c in tree.children], [tuple(e) for e in tree.edges]))
+
+
+def run_trees(ctx, tag, case, n, make, adm1, adm2, argset, what):
+    """First tree (root `root`), then - if the case has `root2` - a second tree on the SAME mesh object built with the SAME
+    exclusion-set object.  make(root, second) returns a constructed (not computed) tree."""
+    snap = None if argset is None else set(argset)
+    if case["root"] is not None and case.get("root_np"):
+        ctx.label("root-type=numpy")
+
+    def unchanged(t):
+        if argset is None:
+            return True
+        return ctx.check(argset == snap, t + "input-mutated",
+                         f"the caller's {what} set was modified by the tree: {len(snap)} ids before, {len(argset)} after "
+                         f"(added {sorted(argset - snap)[:8]}, removed {sorted(snap - argset)[:8]})")
+    ok, tree = ctx.call(tag + "construct", lambda: make(np_root(case, case["root"]), False))
+    if not ok:
+        return
+    ok, r = ctx.call(tag + "compute", tree)
+    if not ok:
+        return
+    ctx.check(r is tree, tag + "call-returns-self", "tree() does not return the tree")
+    unchanged(tag)
+    reached = check_spanning_tree(ctx, tag, tree, n, adm1, case["root"], bfs=True)
+    r2 = case.get("root2")
+    if r2 is None or reached is None:
+        return
+    ctx.label("second-tree")
+    tabs1 = snapshot_tables(tree)
+    t2 = tag + "second:"
+    ok, tree2 = ctx.call(t2 + "construct", lambda: make(np_root(case, r2), True))
+    if not ok:
+        return
+    ok, r = ctx.call(t2 + "compute", tree2)
+    if not ok:
+        return
+    unchanged(t2)
+    check_spanning_tree(ctx, t2, tree2, n, adm2, r2, bfs=True)
+    ctx.check(snapshot_tables(tree) == tabs1, tag + "first-tree-changed",
+              "building a second tree on the same mesh changed the tables of the first tree")
+
+
 # -------------------------------------------------------------------------------------------- sub-check: edge tree
 
 def fn_edge_tree(case, ctx):
@@ -514,70 +640,32 @@ def fn_edge_tree(case, ctx):
     ctx.label("avoid=" + case["avoid_mode"], "avoid_boundary=" + str(bool(case["avoid_boundary"])))
     label_common(ctx, n, links, adm, case["root"], bool(avoid & set(c for _, _, c in links)))
     avoid_ids = None if case["avoid"] is None else set(eid[key(e)] for e in case["avoid"])
-    ok, tree = ctx.call("edge_tree:construct", lambda: trees.EdgeSpanningTree(m, case["root"], avoid_boundary=bool(case["avoid_boundary"]),
-                                                                              avoid_edges=avoid_ids))
-    if not ok:
-        return
-    ok, r = ctx.call("edge_tree:compute", tree)
-    if not ok:
-        return
-    ctx.check(r is tree, "edge_tree:call-returns-self", "tree() does not return the tree")
-    if avoid_ids is not None:
-        ctx.check(avoid_ids == set(eid[key(e)] for e in case["avoid"]), "edge_tree:input-mutated", "avoid_edges set was modified by the tree")
-    check_spanning_tree(ctx, "edge_tree:", tree, n, adm, case["root"], bfs=True)
+    ab1 = bool(case["avoid_boundary"])
+    ab2 = bool(case.get("avoid_boundary2", ab1))
+    _, _, adm2, _ = admissible_edge_links(mod, case["avoid"], ab2)
+    make = lambda root, second: trees.EdgeSpanningTree(m, root, avoid_boundary=(ab2 if second else ab1), avoid_edges=avoid_ids)
+    run_trees(ctx, "edge_tree:", case, n, make, adm, adm2, avoid_ids, "avoid_edges")
 
 
 # -------------------------------------------------------------------------------------------- sub-check: MST
 
-def fn_mst(case, ctx):
-    from mouette.processing import trees
-    m, mod, eid, fid, ok = build(case, ctx)
-    if not ok:
-        return
-    n, links, adm, avoid = admissible_edge_links(mod, None, case["avoid_boundary"])
-    wm = case["weights_mode"]
-    ctx.label("weights=" + wm, "style=" + case["style"], "avoid_boundary=" + str(bool(case["avoid_boundary"])))
-    label_common(ctx, n, links, adm, case["root"], bool(avoid & set(c for _, _, c in links)))
-    # reference weights per edge key
-    if wm == "one":
-        w = {e: 1.0 for e in mod.edge_keys}
-        arg = "one"
-    elif wm == "length":
-        w = {e: mod.length(e) for e in mod.edge_keys}
-        arg = "length"
-    else:
-        w = {e: 0.0 for e in mod.edge_keys}
-        for a, b, x in case["weights"]:
-            w[key(a, b)] = float(x)
-        if wm == "dict":
-            arg = {eid[e]: w[e] for e in mod.edge_keys}
-        else:
-            arg = m.edges.create_attribute("c10_weight", float, dense=(wm == "attr_dense"))
-            for a, b, x in case["weights"]:
-                arg[eid[key(a, b)]] = float(x)
-    adm_w = [(a, b, w[c]) for a, b, c in adm]
-    vals = [x for _, _, x in adm_w]
-    ctx.label("ties" if len(set(vals)) < len(vals) else "no-ties")
-    ok, tree = ctx.call("mst:construct", lambda: trees.EdgeMinimalSpanningTree(m, case["root"], avoid_boundary=bool(case["avoid_boundary"]), weights=arg))
-    if not ok:
-        return
-    ok, r = ctx.call("mst:compute", tree)
-    if not ok:
-        return
-    tag = "mst:"
+def check_mst(ctx, tag, tree, n, adm, w, wm, root_expected):
+    """tree: computed EdgeMinimalSpanningTree; adm: admissible (a, b, edge key); w: reference weight per edge key"""
     root = tree.root
-    if case["root"] is not None:
-        if not ctx.check(as_int(root) == case["root"], tag + "root", f"root is {root!r}, constructor was given {case['root']}"):
-            return
+    if root_expected is not None:
+        if not ctx.check(as_int(root) == root_expected, tag + "root", f"root is {root!r}, constructor was given {root_expected}"):
+            return False
     elif not ctx.check(as_int(root) is not None and 0 <= root < n, tag + "root", f"random root {root!r} is not a vertex index in [0,{n})"):
-        return
+        return False
     root = as_int(root)
     tabs = read_tables(ctx, tag, tree, n)
     if tabs is None:
-        return
+        return False
     parent, children, edges = tabs
     pairs = [(a, b) for a, b, _ in adm]
     admset = set(key(a, b) for a, b in pairs)
+    adm_w = [(a, b, w[c]) for a, b, c in adm]
+    vals = [x for _, _, x in adm_w]
     # 1. the edge list: a minimum-weight spanning forest of the admissible graph
     bade = [e for e in edges if key(e) not in admset]
     okE = ctx.check(not bade, tag + "edge-admissible", f"MST edges {bade[:4]} are not admissible mesh edges (absent, or on the border with avoid_boundary)")
@@ -590,9 +678,10 @@ def fn_mst(case, ctx):
     if okE:
         total = math.fsum(w[key(e)] for e in edges)
         ref_total, ref_k, _ = R.kruskal(n, adm_w)
-        scale = max(1.0, math.fsum(abs(x) for x in vals))
-        ctx.check(abs(total - ref_total) <= 1e-9 * scale, tag + "weight",
-                  f"total weight of the returned forest {total!r} != minimum spanning forest weight {ref_total!r} (weights={wm}, {len(edges)} edges)")
+        tol = 1e-9 * math.fsum(abs(x) for x in vals)          # relative to the scale of the weights (no absolute floor)
+        ctx.check(abs(total - ref_total) <= tol, tag + "weight",
+                  f"total weight of the returned forest {total!r} != minimum spanning forest weight {ref_total!r} (weights={wm}, {len(edges)} edges, "
+                  f"difference {total - ref_total:.3e}, tolerance {tol:.1e})")
     # 2. parent / children orient exactly the root's component
     comp = R.component_of(n, pairs, root)
     ctx.check(parent[root] is None, tag + "root-parent", f"parent[root={root}] = {parent[root]!r}")
@@ -600,7 +689,7 @@ def fn_mst(case, ctx):
     if not ctx.check(reached == comp, tag + "reached",
                      f"root {root}: parent table orients {len(reached)} vertices, the root's admissible component has {len(comp)}; "
                      f"missing {sorted(set(comp) - set(reached))[:8]}, extra {sorted(set(reached) - set(comp))[:8]}"):
-        return
+        return False
     cs = set(comp)
     from_parent = sorted(key(v, parent[v]) for v in reached if v != root)
     in_comp = sorted(key(e) for e in edges if e[0] in cs)
@@ -610,6 +699,103 @@ def fn_mst(case, ctx):
     depth = depths_from_parent(ctx, tag, parent, root, reached, n)
     if ok2:
         check_traverse(ctx, tag, tree, parent, root, reached, depth)
+    return True
+
+
+def fn_mst(case, ctx):
+    import mouette as M
+    from mouette.processing import trees
+    m, mod, eid, fid, ok = build(case, ctx)
+    if not ok:
+        return
+    nE = len(mod.edge_keys)
+    n, links, adm, avoid = admissible_edge_links(mod, None, case["avoid_boundary"])
+    wm = case["weights_mode"]
+    ctx.label("weights=" + wm, "style=" + case["style"], "avoid_boundary=" + str(bool(case["avoid_boundary"])))
+    sc = float(case.get("scale", 1.0))
+    ctx.label("scale=%g" % sc)
+    label_common(ctx, n, links, adm, case["root"], bool(avoid & set(c for _, _, c in links)))
+    # history before the tree: an edge attribute named "length" already lives on the mesh
+    la = case.get("length_attr", "none")
+    ctx.label("length-attr=" + la)
+    if la == "fresh":
+        M.attributes.edge_length(m)
+    elif la == "user":
+        a = m.edges.create_attribute("length", float, dense=True)
+        for u, v, x in case["length_vals"]:
+            a[eid[key(u, v)]] = float(x)
+    elif la == "stale":
+        M.attributes.edge_length(m)                      # lengths of the ORIGINAL geometry stay stored on the mesh
+        for i, p in enumerate(case["V2"]):
+            m.vertices[i] = M.Vec(float(p[0]), float(p[1]), float(p[2]))
+        mod.V = case["V2"]                                # the reference measures the current geometry
+
+    def length_attr_values():
+        if not m.edges.has_attribute("length"):
+            return None
+        a = m.edges.get_attribute("length")
+        return [float(a[e]) for e in range(nE)]
+    len_snap = length_attr_values()
+    coords_snap = [[float(x) for x in v] for v in m.vertices]
+    # reference weights per edge key
+    w_len = {e: mod.length(e) for e in mod.edge_keys}
+    w_one = {e: 1.0 for e in mod.edge_keys}
+    arg_snapshot = lambda: None
+    if wm == "one":
+        w, arg = w_one, "one"
+    elif wm == "length":
+        w, arg = w_len, "length"
+    else:
+        w = {e: 0.0 for e in mod.edge_keys}
+        for a, b, x in case["weights"]:
+            w[key(a, b)] = float(x)
+        if wm == "dict":
+            arg = {eid[e]: w[e] for e in mod.edge_keys}
+            arg_snapshot = lambda: dict(arg)
+        else:
+            arg = m.edges.create_attribute("c10_weight", float, dense=(wm == "attr_dense"))
+            for a, b, x in case["weights"]:
+                arg[eid[key(a, b)]] = float(x)
+            arg_snapshot = lambda: [float(arg[e]) for e in range(nE)]
+    arg_snap = arg_snapshot()
+    vals = [w[c] for _, _, c in adm]
+    ctx.label("ties" if len(set(vals)) < len(vals) else "no-ties")
+    if case["root"] is not None and case.get("root_np"):
+        ctx.label("root-type=numpy")
+
+    def untouched(t):
+        ctx.check(arg_snapshot() == arg_snap, t + "input-mutated", f"the weights object ({wm}) was modified by the tree")
+        ctx.check(length_attr_values() == len_snap, t + "length-attr-mutated", "the mesh's stored 'length' edge attribute was created / modified by the tree")
+        now = [[float(x) for x in v] for v in m.vertices]
+        ctx.check(now == coords_snap, t + "vertices-mutated", "vertex coordinates were modified by the tree")
+
+    ab = bool(case["avoid_boundary"])
+    ok, tree = ctx.call("mst:construct", lambda: trees.EdgeMinimalSpanningTree(m, np_root(case, case["root"]), avoid_boundary=ab, weights=arg))
+    if not ok:
+        return
+    ok, r = ctx.call("mst:compute", tree)
+    if not ok:
+        return
+    untouched("mst:")
+    if not check_mst(ctx, "mst:", tree, n, adm, w, wm, case["root"]):
+        return
+    r2 = case.get("root2")
+    if r2 is None:
+        return
+    # second tree on the same mesh object (same weights object, or another weight choice)
+    mode2 = case.get("mode2", "same")
+    ctx.label("second-tree", "second-weights=" + mode2)
+    arg2, w2, wm2 = (arg, w, wm) if mode2 == "same" else ("one", w_one, "one") if mode2 == "one" else ("length", w_len, "length")
+    tabs1 = snapshot_tables(tree)
+    ok, tree2 = ctx.call("mst:second:construct", lambda: trees.EdgeMinimalSpanningTree(m, np_root(case, r2), avoid_boundary=ab, weights=arg2))
+    if not ok:
+        return
+    ok, r = ctx.call("mst:second:compute", tree2)
+    if not ok:
+        return
+    untouched("mst:second:")
+    check_mst(ctx, "mst:second:", tree2, n, adm, w2, wm2, r2)
+    ctx.check(snapshot_tables(tree) == tabs1, "mst:first-tree-changed", "building a second MST on the same mesh changed the tables of the first one")
 
 
 # -------------------------------------------------------------------------------------------- sub-check: face tree
@@ -625,13 +811,8 @@ def fn_face_tree(case, ctx):
     ctx.label("forbidden=" + case["mode"])
     label_common(ctx, n, links, adm, case["root"], bool(forb & set(c for _, _, c in links)))
     forb_ids = None if case["forbidden"] is None else set(eid[key(e)] for e in case["forbidden"])
-    ok, tree = ctx.call("face_tree:construct", lambda: trees.FaceSpanningTree(m, case["root"], forb_ids))
-    if not ok:
-        return
-    ok, r = ctx.call("face_tree:compute", tree)
-    if not ok:
-        return
-    check_spanning_tree(ctx, "face_tree:", tree, n, adm, case["root"], bfs=True)
+    make = lambda root, second: trees.FaceSpanningTree(m, root, forb_ids)
+    run_trees(ctx, "face_tree:", case, n, make, adm, adm, forb_ids, "forbidden_edges")
 
 
 # -------------------------------------------------------------------------------------------- sub-check: cell tree
@@ -647,13 +828,8 @@ def fn_cell_tree(case, ctx):
     ctx.label("forbidden=" + case["mode"])
     label_common(ctx, n, links, adm, case["root"], bool(forb & set(c for _, _, c in links)))
     forb_ids = None if case["forbidden"] is None else set(fid[key(f)] for f in case["forbidden"])
-    ok, tree = ctx.call("cell_tree:construct", lambda: trees.CellSpanningTree(m, case["root"], forb_ids))
-    if not ok:
-        return
-    ok, r = ctx.call("cell_tree:compute", tree)
-    if not ok:
-        return
-    check_spanning_tree(ctx, "cell_tree:", tree, n, adm, case["root"], bfs=True)
+    make = lambda root, second: trees.CellSpanningTree(m, root, forb_ids)
+    run_trees(ctx, "cell_tree:", case, n, make, adm, adm, forb_ids, "forbidden_faces")
 
 
 # -------------------------------------------------------------------------------------------- sub-check: forests
@@ -683,7 +859,21 @@ def fn_forest(case, ctx):
         mk = lambda: trees.CellSpanningForest(m)
         excl = False
     label_common(ctx, n, links, adm, 0, excl)
-    tag = "forest:" + what + ":"
+    fset = forb_ids if what == "face" else None
+    fsnap = None if fset is None else set(fset)
+    first = validate_forest(ctx, "forest:" + what + ":", mk, n, adm, fset, fsnap)
+    if first is None or not case.get("twice"):
+        return
+    # a second forest on the same mesh object, with the same exclusion-set object
+    ctx.label("second-forest")
+    tabs1 = [snapshot_tables(t) for t in first.trees]
+    validate_forest(ctx, "forest:" + what + ":second:", mk, n, adm, fset, fsnap)
+    ctx.check([snapshot_tables(t) for t in first.trees] == tabs1, "forest:" + what + ":first-forest-changed",
+              "building a second forest on the same mesh changed the trees of the first one")
+
+
+def validate_forest(ctx, tag, mk, n, adm, fset, fsnap):
+    """build + compute + validate one forest; returns it (None when validation stopped early)"""
     ok, forest = ctx.call(tag + "construct", mk)
     if not ok:
         return
@@ -691,6 +881,9 @@ def fn_forest(case, ctx):
     if not ok:
         return
     ctx.check(r is forest, tag + "call-returns-self", "forest() does not return the forest")
+    if fset is not None:
+        ctx.check(fset == fsnap, tag + "input-mutated",
+                  f"the caller's forbidden_edges set was modified by the forest ({len(fsnap)} ids before, {len(fset)} after)")
     pairs = [(a, b) for a, b, _ in adm]
     comps = R.partition(n, pairs)
     tl, rl = forest.trees, forest.roots
@@ -746,6 +939,7 @@ def fn_forest(case, ctx):
         pos = {v: i for i, v in enumerate(nodes)}
         late = [(v, p) for v, p in seq if p is not None and pos[p] > pos[v]]
         ctx.check(not late, sig + "parents-first", f"forest.traverse('{order}') yields {late[:4]} before their parents")
+    return forest
 
 
 def self_test():
